@@ -362,6 +362,12 @@ func (circFamily) Exec(c *hc.Case) {
 	}
 	circMonitors(c, h, ops, bounds, clocks, tags)
 	asIfAbsent(c, &p, ops, tags)
+	if c.ID%8 == 0 {
+		panicProbe(c, tags)
+	}
+	if c.ID%8 == 1 {
+		foreignCtxProbe(c, tags)
+	}
 	for t := range tags {
 		c.Tags = append(c.Tags, t)
 	}
